@@ -312,6 +312,26 @@ def make(r, size=4):
   return Gen(r, size).program()
 
 
+def dotted_table_family(r):
+  """External tables named with a dataset or a path (aux.edge, `store/edge`) used several times in one rule:
+  every use needs an alias of its own that is a legal identifier."""
+  tabs = r.sample(['aux.edge', 'aux.node', '`store/edge`', 'db1.t'], r.choice([1, 2]))
+  uses = []
+  vs = ['zq%d' % i for i in range(1, 8)]
+  n = r.choice([2, 3, 3, 4])
+  for i in range(n):
+    uses.append('%s(a: %s, b: %s)' % (r.choice(tabs), vs[i], vs[i + 1]))
+  cond = r.choice(['', ', %s > 0' % vs[0], ', %s != %s' % (vs[0], vs[n])])
+  text = 'M(a: %s, b: %s) :- %s%s;\n' % (vs[0], vs[n], ', '.join(uses), cond)
+  if r.random() < 0.4:
+    text += 'N(a: zq1, c? += zq2) distinct :- M(a: zq1, b: zq2);\n'
+    pred = 'N'
+  else:
+    pred = 'M'
+  return {'text': text, 'pred': pred, 'preds': [pred], 'tags': ['family:dotted-table'],
+          'ext': ['aux', 'db1', 'store', '`store/edge`', 'store/edge', 'aux.edge', 'aux.node', 'db1.t']}
+
+
 def shared_with_family(r):
   """WITH-compiled chains shared by several parents (grounded predicates and the main one): every statement
   that mentions a WITH table must define it, and its own WITH dependencies, itself."""
